@@ -383,7 +383,9 @@ func genDataURI(t *rapid.T) Case {
 	case 0:
 		payload = rapid.SliceOfN(rapid.Byte(), 0, 24).Draw(t, "bytes")
 	case 1:
-		payload = []byte(rapid.SampledFrom([]string{"a { b : c }", "<b> x </b>", "[1, 2]", "hello world", "a&b#c%d", "", "  ", "<svg><path d=\"M0 0 L 1 1\"/></svg>", "{\"a\": 1.0}", "a{color:red}"}).Draw(t, "text"))
+		payload = []byte(rapid.SampledFrom([]string{"a { b : c }", "<b> x </b>", "[1, 2]", "hello world", "a&b#c%d", "", "  ", "<svg><path d=\"M0 0 L 1 1\"/></svg>", "{\"a\": 1.0}", "a{color:red}",
+			// payloads that mention or embed a base64 data URI without being base64 themselves
+			"<svg><image href=\"data:image/png;base64,iVBORw0KGgo=\"/> <g> </g></svg>", "a { background : url(data:image/gif;base64,R0lGODlh) no-repeat }", "use ;base64 for binary data"}).Draw(t, "text"))
 	default:
 		n := rapid.IntRange(0, 16).Draw(t, "n")
 		for i := 0; i < n; i++ {
@@ -431,7 +433,9 @@ func genDataURI(t *rapid.T) Case {
 
 func genMediatype(t *rapid.T) Case {
 	c := Case{Kind: "mediatype"}
-	pieces := []string{"text", "/", "HTML", "css", ";", " ", "  ", "\t", "charset", "=", "UTF-8", "\"UTF-8 x\"", "\"A;b = C\"", "\"\"", "*", "+xml", "Q", "x", "\n", "boundary=\"--X Y--\"", ",", ", ", "codecs=\"avc1.42E01E, MP4A.40.2\"", "\"a, B  c\"", "\"x,\"", "video/mp4"}
+	pieces := []string{"text", "/", "HTML", "css", ";", " ", "  ", "\t", "charset", "=", "UTF-8", "\"UTF-8 x\"", "\"A;b = C\"", "\"\"", "*", "+xml", "Q", "x", "\n", "boundary=\"--X Y--\"", ",", ", ", "codecs=\"avc1.42E01E, MP4A.40.2\"", "\"a, B  c\"", "\"x,\"", "video/mp4",
+		// bytes outside ASCII are not letters of the media type grammar: they pass through whatever they are
+		"name=\u00dcbersicht.txt", "\u0416", "\u00c9t\u00e9", "\u0391\u03b2", "\xc3", "\xde", "\xd7", "\xff", "\"\u00dc B\""}
 	n := rapid.IntRange(0, 10).Draw(t, "n")
 	var sb strings.Builder
 	for i := 0; i < n; i++ {
@@ -441,7 +445,7 @@ func genMediatype(t *rapid.T) Case {
 	if strings.Count(s, "\"")%2 == 1 {
 		s += "\"" // the documented shape has balanced quotes
 	}
-	c.In = s
+	setIn(&c, []byte(s))
 	return c
 }
 
